@@ -46,6 +46,36 @@ package quic
 // acknowledged, the FIN / the reset too, and every stream must have reported its
 // completion exactly once.
 
+//
+// Defects of the unchanged tree the simulation reaches (each has its own signature; they end the
+// history they occur in, are reported when nothing else fails in the run - see sstRun - and have a
+// minimal replay in /tmp/sstmin, rebuilt by /tmp/sstmin/make.py):
+//
+//  1. CancelWrite with a reliable size emits RESET_STREAM_AT with FinalSize = max(writeOffset,
+//     reliableOffset). While the reliable remainder sits in nextFrame, blocked by flow control, that
+//     final size lies beyond MAX_STREAM_DATA / MAX_DATA ("RESET_STREAM_AT final size beyond the
+//     peer's ..."); the peer charges it to the connection at once while the sender charges only what it
+//     sends, so other streams overdraw MAX_DATA later ("STREAM frames beyond the peer's MAX_DATA: the
+//     final size of a RESET_STREAM_AT covers ..."); and a STOP_SENDING that follows makes
+//     handleStopSendingFrame announce FinalSize = writeOffset, a smaller final size ("final size
+//     changed: a RESET_STREAM_AT announced the unsent reliable size ...").
+//  2. A Write that is blocked because nextFrame + its data exceed the buffer is woken by CancelWrite /
+//     STOP_SENDING after returnFramesToPool emptied nextFrame: the loop in write() checks
+//     canBufferStreamFrame before resetErr, copies the data into a new nextFrame and returns success.
+//     isNewlyCompleted then refuses for good (nextFrame holds data): onStreamCompleted never comes.
+//  3. CancelWrite / OnLost cut a frame that waits for retransmission down to the reliable size and
+//     leave its FIN bit set: FIN at the reliable size after a FIN / RESET_STREAM_AT with the real
+//     final size.
+//  4. enableResetStreamAt (transport parameters of an accepted 0-RTT session) after a CancelWrite that
+//     ignored a reliable boundary: reliableOffset() changes under the reset in progress
+//     (numOutStandingFrames negative panic, reset acknowledgement ignored, data after RESET_STREAM).
+//  5. framer.Handle0RTTRejection keeps streamsWithControlFrames: a reset queued before the rejection
+//     is sent after it.
+//
+// Tolerated: a Write in progress when the stream is reset may return success (see 2; the data is
+// dropped); the data-less FIN frame ignores the size it is offered (at most 18 bytes; the framer never
+// offers less than 128).
+
 import (
 	"bytes"
 	"context"
@@ -295,19 +325,21 @@ func sstGenOne(r *KRng, cseed uint64, tier string) *sstGenT {
 	return sc
 }
 
-// ---- bounded sweep: every sequence of up to 5 (quick: 4) symbols of a 10-letter
-// alphabet on one stream, for {model packer, real framer} x {tight, loose window}.
+// ---- bounded sweep: every sequence of up to 6 (quick: 5) symbols of an 11-letter alphabet
+// {write 50, write 1420, pop small, pop large, lose oldest, ack oldest, MAX_STREAM_DATA +700,
+// SetReliableBoundary, CancelWrite, Close, STOP_SENDING} on one stream whose peer supports
+// RESET_STREAM_AT, for {model packer, real framer} x {initial MAX_STREAM_DATA 30, 2500}.
 
 const sstSweepBatch = 16
 
-var sstSweepAlphabet = 10
+var sstSweepAlphabet = 11
 
 func sstSweepSym(sym int, framer bool) sstOp {
 	switch sym {
 	case 0:
 		return sstOp{K: "w", A: 50}
 	case 1:
-		return sstOp{K: "w", A: 1600}
+		return sstOp{K: "w", A: 1420} // fits the stream's buffer alone, blocks behind 50 buffered bytes
 	case 2:
 		if framer {
 			return sstOp{K: "pop", A: 140}
@@ -322,8 +354,10 @@ func sstSweepSym(sym int, framer bool) sstOp {
 	case 6:
 		return sstOp{K: "msd", A: 0, B: 700}
 	case 7:
-		return sstOp{K: "cancel", A: 7, F: true}
+		return sstOp{K: "rel"}
 	case 8:
+		return sstOp{K: "cancel", A: 7}
+	case 9:
 		return sstOp{K: "c"}
 	default:
 		return sstOp{K: "stop", A: 3}
@@ -356,9 +390,9 @@ func sstSweepSeq(k int) []int {
 }
 
 func sstSweep(idx int, tier string) KScenario {
-	maxLen := 4
+	maxLen := 5
 	if tier == "thorough" {
-		maxLen = 5
+		maxLen = 6
 	}
 	per := sstSweepCount(maxLen)
 	total := 4 * per
